@@ -1088,6 +1088,140 @@ fn emit_type<T: JsonSchema>(out: &mut Out, id: &mut u64, tname: &str, named: boo
     *id += 1;
 }
 
+// ---------------------------------------------------------------------------
+// da: document assembly.  Every type of the family is the success response of an
+// endpoint of ONE ApiDescription; the schema the document publishes for that
+// endpoint (its references expanded through the document's own components) must be
+// the conversion of the type's own schema (expanded through the type's own
+// definitions) - names of definitions are not compared, only structure, so two
+// different types with the same schema name (`Item` / `Item2`) are handled too.
+
+/// A response type whose JSON Schema is `T`'s (serialisation is never invoked).
+struct W<T>(std::marker::PhantomData<fn() -> T>);
+impl<T> Serialize for W<T> {
+    fn serialize<S: serde::Serializer>(&self, s: S) -> Result<S::Ok, S::Error> {
+        s.serialize_unit()
+    }
+}
+impl<T: JsonSchema> JsonSchema for W<T> {
+    fn schema_name() -> String {
+        T::schema_name()
+    }
+    fn schema_id() -> std::borrow::Cow<'static, str> {
+        T::schema_id()
+    }
+    fn is_referenceable() -> bool {
+        T::is_referenceable()
+    }
+    fn json_schema(g: &mut schemars::gen::SchemaGenerator) -> Schema {
+        T::json_schema(g)
+    }
+}
+
+/// Replace every `$ref` by the schema it names (in `defs`), recursion cut by the
+/// distance to the enclosing occurrence.
+fn expand(v: &Value, defs: &JMap<String, Value>, path: &mut Vec<String>) -> Value {
+    match v {
+        Value::Object(m) => {
+            if let Some(Value::String(r)) = m.get("$ref") {
+                let name = r.rsplit('/').next().unwrap_or("").to_string();
+                if let Some(pos) = path.iter().position(|n| *n == name) {
+                    return json!({ "$rec": path.len() - pos });
+                }
+                return match defs.get(&name) {
+                    Some(d) => {
+                        path.push(name);
+                        let e = expand(d, defs, path);
+                        path.pop();
+                        json!({ "$def": e })
+                    }
+                    None => json!({ "$dangling": name }),
+                };
+            }
+            Value::Object(m.iter().map(|(k, x)| (k.clone(), expand(x, defs, path))).collect())
+        }
+        Value::Array(a) => Value::Array(a.iter().map(|x| expand(x, defs, path)).collect()),
+        _ => v.clone(),
+    }
+}
+
+/// What the conversion of `T`'s own schema looks like, expanded; `None` if the converter
+/// refuses the type (then it cannot be part of a document at all).
+fn own_expanded<T: JsonSchema>() -> Option<Value> {
+    let settings = schemars::gen::SchemaSettings::openapi3();
+    let mut generator = schemars::gen::SchemaGenerator::new(settings);
+    let root = generator.subschema_for::<T>();
+    let rs = generator.into_root_schema_for::<()>();
+    let name = T::schema_name();
+    let conv = |n: Option<&String>, s: &Schema| -> Option<Value> {
+        let (s2, n2) = (s.clone(), n.cloned());
+        catch(move || hooks::j2oas_schema(n2.as_ref(), &s2)).ok()
+    };
+    let r = conv(Some(&name), &root)?;
+    let mut defs = JMap::new();
+    for (k, v) in &rs.definitions {
+        defs.insert(k.clone(), conv(None, v)?);
+    }
+    Some(expand(&r, &defs, &mut Vec::new()))
+}
+
+type DaEntry = (String, Option<Value>, dropshot::ApiEndpoint<dropshot::StubContext>);
+
+fn da_entry<T: JsonSchema + 'static>(i: usize, tname: &str) -> DaEntry {
+    let ep = dropshot::ApiEndpoint::new_for_types::<(), Result<dropshot::HttpResponseOk<W<T>>, dropshot::HttpError>>(
+        format!("op{}", i),
+        http::Method::GET,
+        "application/json",
+        &format!("/t{}", i),
+        dropshot::ApiEndpointVersions::All,
+    );
+    (tname.to_string(), own_expanded::<T>(), ep)
+}
+
+/// Two different types that share a schema name.
+mod same_name {
+    pub mod inv {
+        #[derive(schemars::JsonSchema)]
+        pub struct Item {
+            pub sku: String,
+            pub count: u32,
+        }
+    }
+    pub mod bill {
+        #[derive(schemars::JsonSchema)]
+        pub struct Item {
+            pub amount: i64,
+            pub paid: Option<bool>,
+        }
+    }
+}
+
+fn da_stream(out: &mut Out, id: &mut u64, entries: Vec<DaEntry>, order_seed: u64) {
+    // one document for all types the converter accepts, registered in a seeded order
+    let mut usable: Vec<DaEntry> = entries.into_iter().filter(|e| e.1.is_some()).collect();
+    let mut r = Rng(order_seed.wrapping_mul(0x9e3779b97f4a7c15) | 1);
+    for i in (1..usable.len()).rev() {
+        let j = r.below(i as u64 + 1) as usize;
+        usable.swap(i, j);
+    }
+    let mut api = dropshot::ApiDescription::<dropshot::StubContext>::new();
+    let mut meta: Vec<(String, String, Value)> = Vec::new();
+    for (tname, own, ep) in usable {
+        let path = ep.path.clone();
+        api.register(ep).expect("registers");
+        meta.push((tname, path, own.unwrap()));
+    }
+    let doc = api.openapi("t", semver::Version::new(1, 0, 0)).json().expect("document");
+    let empty = JMap::new();
+    let defs = doc["components"]["schemas"].as_object().unwrap_or(&empty);
+    for (tname, path, own) in meta {
+        let published = &doc["paths"][&path]["get"]["responses"]["200"]["content"]["application/json"]["schema"];
+        let pub_exp = expand(published, defs, &mut Vec::new());
+        out.line(&format!("da {} {} {} => {}", id, tname, order_seed, (pub_exp == own) as u8));
+        *id += 1;
+    }
+}
+
 fn main() {
     quiet_panics();
     let mut out = Out::new();
@@ -1122,6 +1256,32 @@ fn main() {
     emit_type::<(u8, String)>(&mut out, &mut id, "tuple", false);
     emit_type::<Box<Tree>>(&mut out, &mut id, "box_tree", false);
     emit_type::<std::ops::Bound<u32>>(&mut out, &mut id, "bound", false);
+
+    // ---- da: the same types as responses of one ApiDescription -----------------
+    {
+        macro_rules! da_fam {
+            ($($t:ty),* $(,)?) => {{
+                let mut v: Vec<DaEntry> = Vec::new();
+                $( let i = v.len(); v.push(da_entry::<$t>(i, stringify!($t).rsplit("::").next().unwrap().trim())); )*
+                v
+            }};
+        }
+        for order_seed in 0..(if is_thorough() { 12 } else { 3 }) {
+            let mut entries = da_fam!(
+                Inner, Simple, Empty, UnitStruct, WithOpt, WithVec, WithMaps, Widths, NonZeros, NonZeroSigned,
+                WithUuid, NewU, NewS, NewInner, UnitEnum, DocEnum, External, ExternalNoTuple, Internal,
+                Adjacent, Untagged, UntaggedUnit, Renamed, Outer, Tree, Chain, Strict, Flat, FlatEnum,
+                Anything, Validated, Annotated, StdTypes, WithUnit, WithTuple, WithBound, WithResult,
+                Option<Inner>, Vec<Inner>, Vec<Option<Inner>>, Box<Tree>, Option<u32>, String, u64
+            );
+            let i = entries.len();
+            entries.push(da_entry::<same_name::inv::Item>(i, "inv_Item"));
+            entries.push(da_entry::<same_name::bill::Item>(i + 1, "bill_Item"));
+            entries.push(da_entry::<Vec<same_name::bill::Item>>(i + 2, "vec_bill_Item"));
+            entries.push(da_entry::<Vec<same_name::inv::Item>>(i + 3, "vec_inv_Item"));
+            da_stream(&mut out, &mut id, entries, order_seed);
+        }
+    }
 
     // ---- rs: random supported schemas --------------------------------------
     let n_rs = if is_thorough() { 20000 } else { 4000 };
